@@ -13,6 +13,7 @@ from corankco.algorithms.pickaperm.pickaperm import PickAPerm
 
 
 class Share(Suite):
+    names_rate, past_rate = 0.08, 0.08
     """the statement itself, on penalties of a fine dyadic grid (tie penalty 0.5 + 2^-17 ...): local optima reached from different
     departures then have scores ~1e-5 apart - closer than the tolerance of a careless float comparison. Judged without the model
     of the local search: all returned rankings share one score, at most the score of every departure"""
@@ -44,7 +45,7 @@ class Share(Suite):
         out = {"D": gen.observe(ds)}
         if case["starters"] == "none":
             alg = BioConsert()
-            univ = [e.value for e in ds.universe]
+            univ = [gen.back(e.value) for e in ds.universe]
             deps = [lst(r) for r in ds.unified_rankings()] + [[univ]]
         else:
             starts = [CopelandMethod(), PickAPerm(), BordaCount()]
